@@ -29,7 +29,7 @@ from pathlib import Path
 from typing import Any
 
 from harness import c08_extract, c08_gen, common
-from harness.c08_gen import MODULE_HEADER, ast_to_tree, coq_fundef, eval_mathml, fn_src, gen_expr, gen_function, outcome_to_coq
+from harness.c08_gen import MODULE_HEADER, ast_to_tree, coq_fundef, eval_mathml, fn_src, gen_core_expr, gen_expr, gen_function, outcome_to_coq
 from harness.common import Run, clist, cn, cq, cstr
 
 AREA = "sbmlexp"
@@ -83,9 +83,14 @@ def load_module(scratch: Path, text: str) -> Any:
 def sbmlify(fn, args: list[str]) -> tuple:  # noqa: ANN001
     from mxlpy.sbml._export import _sbmlify_fn
 
+    import libsbml
+
     try:
         node = guarded(_sbmlify_fn, fn, list(args), timeout=5.0)
-        return ("ok", ast_to_tree(node))
+        # out[1]: the tree the exporter built (compared with the Coq model); out[2]: the same tree after libSBML wrote
+        # it as MathML and read it back (what a file contains; judged by the oracle); out[3]: libSBML's own verdict
+        back = libsbml.readMathMLFromString(libsbml.writeMathMLToString(node))
+        return ("ok", ast_to_tree(node), ast_to_tree(back) if back is not None else None, bool(node.isWellFormedASTNode()))
     except _Timeout:
         return ("err", "ErrOther:Timeout", "timeout")
     except Exception as e:  # noqa: BLE001
@@ -96,8 +101,11 @@ def py_value(fn, vals: list[float]) -> float | None:  # noqa: ANN001
     """Value of the Python function, None where it has no finite real value."""
     import warnings
 
+    import numpy as np
+
     try:
-        with warnings.catch_warnings():
+        # a NumPy function outside its domain yields NaN (which `<`, `==` then swallow): no real value there
+        with warnings.catch_warnings(), np.errstate(invalid="raise", divide="raise", over="raise"):
             warnings.simplefilter("ignore")
             v = fn(*vals)
         if isinstance(v, complex):
@@ -123,6 +131,8 @@ def math_oracle(fn, params: list[str], args: list[str], out: tuple, flags: list[
         return f"export refuses a representable function: {out[1]} {out[2]}"
     if len(params) != len(args):
         return "export accepted a function whose parameter count differs from the model arguments"
+    if not out[3] or out[2] is None:
+        return "the exported node is not a well-formed libSBML AST: setMath rejects it silently / its MathML is written without the operands"
     for pt in POINTS:
         vals = pt[: len(params)]
         pv = py_value(fn, vals)
@@ -130,7 +140,7 @@ def math_oracle(fn, params: list[str], args: list[str], out: tuple, flags: list[
             continue
         env = dict(zip(args, vals)) | {"g50": None}
         try:
-            mv = eval_mathml(out[1], {k: v for k, v in env.items() if v is not None})
+            mv = eval_mathml(out[2], {k: v for k, v in env.items() if v is not None})
         except c08_gen.Undefined as e:
             return f"exported MathML has no value at {dict(zip(params, vals))} ({e}) where the function returns {pv}"
         if not close(pv, float(mv)):
@@ -143,7 +153,7 @@ def math_oracle(fn, params: list[str], args: list[str], out: tuple, flags: list[
 # ---------------------------------------------------------------------------------------
 
 
-def gen_model(rng, wild: bool) -> dict:
+def gen_model(rng, wild: bool, exotic: bool = False) -> dict:
     fns: list[tuple[str, list[str], list[tuple]]] = []
     flags: set[str] = set()
 
@@ -152,7 +162,13 @@ def gen_model(rng, wild: bool) -> dict:
         args = rng.sample(avail, k)
         params = [f"p{i}" for i in range(k)]
         fl: set[str] = set()
-        e = gen_expr(rng, params, depth, w, fl)
+        if w or (exotic and rng.random() < 0.5):
+            # the full expression grammar: truth values used as numbers and numbers as conditions included
+            e = gen_expr(rng, params, depth, w, fl)
+            if c08_gen.mixes_bool_num(e):
+                fl.add("boolnum")
+        else:
+            e = gen_core_expr(rng, params, depth, fl)
         flags.update(fl)
         name = f"f{len(fns)}"
         body = ([("doc",)] if rng.random() < 0.1 else []) + [("return", e)]
@@ -188,12 +204,15 @@ def gen_model(rng, wild: bool) -> dict:
         derived.append([nm, f, a])
         avail.append(nm)
     rxns = []
+    computed_for: set[str] = set()
     for i in range(rng.randint(1, 3)):
         nm = f"n{400 + i}"
         f, a = newfn(avail, 2, w=wild and rng.random() < 0.4)
         st = []
         for v in rng.sample([v[0] for v in vars_], rng.randint(1, n_var)):
             r = rng.random()
+            if r >= 0.65 and v in computed_for and rng.random() < 0.9:
+                r = rng.random() * 0.65  # recorded finding shared-stoichiometry-reference: keep it rare
             if r < 0.4:
                 c = rng.choice([-3, -2, -1, 1, 2, 3])
             elif r < 0.65:
@@ -201,6 +220,9 @@ def gen_model(rng, wild: bool) -> dict:
                 c = rng.choice([-2.5, -1.5, -0.5, 0.5, 1.5, 0.25])
             else:
                 flags.add("computed_stoichiometry")
+                if v in computed_for:
+                    flags.add("shared_ref")
+                computed_for.add(v)
                 k = rng.randint(0, min(1, len(plain)))
                 cargs = rng.sample(plain, k)
                 base: tuple = ("real", Fraction(rng.choice([1, 2, 3, 5]), 2)) if k == 0 else ("bin", "Mult", ("name", "p0"), ("real", Fraction(rng.choice([1, 3]), 2)))
@@ -232,11 +254,14 @@ def build_model(spec: dict, scratch: Path):
     return m
 
 
-def _series(fn, *a, **kw) -> dict[str, float] | None:  # noqa: ANN001, ANN002, ANN003
+def _series(fn, *a, strict: bool = True, **kw) -> dict[str, float] | None:  # noqa: ANN001, ANN002, ANN003
     import warnings
 
+    import numpy as np
+
     try:
-        with warnings.catch_warnings():
+        # NumPy functions outside their domain must not pass as values (NaN is swallowed by comparisons)
+        with warnings.catch_warnings(), np.errstate(**({"invalid": "raise", "divide": "raise", "over": "raise"} if strict else {})):
             warnings.simplefilter("ignore")
             s = fn(*a, **kw)
         return {str(k): float(v) for k, v in dict(s).items()}
@@ -244,16 +269,17 @@ def _series(fn, *a, **kw) -> dict[str, float] | None:  # noqa: ANN001, ANN002, A
         return None
 
 
-def observe(m, state: dict[str, float] | None) -> dict | None:  # noqa: ANN001
-    """Everything the property compares, at one state (None = the initial one)."""
+def observe(m, state: dict[str, float] | None, strict: bool = True) -> dict | None:  # noqa: ANN001
+    """Everything the property compares, at one state (None = the initial one).  strict: NumPy domain errors of the
+    ORIGINAL model raise (no value there); the re-imported model is evaluated as it is."""
     if state is None:
-        ic = _series(m.get_initial_conditions)
+        ic = _series(m.get_initial_conditions, strict=strict)
         if ic is None:
             return None
         state = ic
-    args = _series(m.get_args, dict(state), time=0.0)
-    flux = _series(m.get_fluxes, dict(state), time=0.0)
-    rhs = _series(m.get_right_hand_side, dict(state), time=0.0)
+    args = _series(m.get_args, dict(state), time=0.0, strict=strict)
+    flux = _series(m.get_fluxes, dict(state), time=0.0, strict=strict)
+    rhs = _series(m.get_right_hand_side, dict(state), time=0.0, strict=strict)
     if args is None or flux is None or rhs is None:
         return None
     return {"state": state, "args": args, "fluxes": flux, "rhs": rhs}
@@ -279,10 +305,15 @@ def roundtrip_oracle(spec: dict, scratch: Path, tag: str, states: list[dict[str,
             return "refused", None
         return "refused-representable", f"sbml.write refuses a model made of representable constructs {spec['flags']}: {type(e).__name__}: {str(e)[:150]}"
     cache_py = Path.home() / ".cache" / "mxlpy" / f"mb_{f.stem}.py"
+    import warnings
+
     try:
-        m2 = guarded(sbml.read, f)
+        with warnings.catch_warnings():
+            warnings.simplefilter("ignore")  # SymPy deprecation notices from pysbml
+            m2 = guarded(sbml.read, f)
     except _Timeout:
-        return "read-timeout", "sbml.read of the written file did not return within 20 s"
+        # pysbml/SymPy simplification of a deeply nested conditional can take minutes: inconclusive, counted, not judged
+        return "read-timeout", None
     except Exception as e:  # noqa: BLE001
         return "unreadable", f"sbml.write wrote a file that sbml.read cannot import: {type(e).__name__}: {str(e)[:150]}"
     finally:
@@ -300,7 +331,7 @@ def roundtrip_oracle(spec: dict, scratch: Path, tag: str, states: list[dict[str,
         if o1 is None or not all(math.isfinite(v) for d in ("args", "fluxes", "rhs") for v in o1[d].values()):
             continue
         st_used = o1["state"]
-        o2 = observe(m2, None if st is None else {**{k: v for k, v in (observe(m2, None) or {"state": {}})["state"].items()}, **st_used})
+        o2 = observe(m2, None if st is None else {**{k: v for k, v in (observe(m2, None, strict=False) or {"state": {}})["state"].items()}, **st_used}, strict=False)
         if o2 is None:
             return "rt-not-evaluable", f"the re-imported model cannot be evaluated at {st_used} (the original can)"
         if st is None:
@@ -332,18 +363,35 @@ def coq_coef(c, fns: dict) -> str:  # noqa: ANN001
 
 
 def doc_reaction_outcome(spec: dict, scratch: Path, tag: str) -> tuple:
-    """Writes the model; returns ("ok", reactants, products, law) read back with libSBML, or ("err", class)."""
+    """Writes the model through the public `sbml.write`; returns ("ok", [(reactants, products, law)], ias) taken from the
+    libSBML document the exporter built (captured at libsbml.writeSBMLToFile: reading the XML back would normalise node
+    types, e.g. AST_POWER -> AST_FUNCTION_POWER), ("err", class, msg) when the exporter raises, or ("skip", why) when the
+    model cannot be evaluated at its initial state (Model._create_cache raises inside write: outside the Coq model)."""
     import libsbml
     from mxlpy import sbml
 
     m = build_model(spec, scratch)
+    if observe(m, None) is None:
+        return ("skip", "not evaluable at the initial state")
     f = scratch / f"c08d_{common.os.getpid()}_{tag}.xml"
+    captured: list = []
+    orig = libsbml.writeSBMLToFile
+
+    def capture(doc, path):  # noqa: ANN001
+        captured.append(doc)
+        return orig(doc, path)
+
+    libsbml.writeSBMLToFile = capture
     try:
         guarded(sbml.write, m, f)
     except Exception as e:  # noqa: BLE001
         return ("err", common.classify_exception(e), str(e)[:100])
-    doc = libsbml.readSBMLFromFile(str(f))
-    sm = doc.getModel()
+    finally:
+        libsbml.writeSBMLToFile = orig
+        f.unlink(missing_ok=True)
+    if len(captured) != 1:
+        return ("err", "ErrOther:NoDocument", "sbml.write did not hand a document to libsbml.writeSBMLToFile")
+    sm = captured[0].getModel()
     rules = {sm.getRule(i).getVariable(): sm.getRule(i).getMath() for i in range(sm.getNumRules())}
     out = []
     for nm, _f, _a, _st in spec["reactions"]:
@@ -376,6 +424,19 @@ def coq_sref(role: str, ref: tuple) -> str:
 # ---------------------------------------------------------------------------------------
 
 KNOWN_NAME_WITNESSES = ["1x", "x-1", "x.y", "_x"]
+IMPORT_SIDE = ("unreadable", "read-timeout", "rt-not-evaluable", "name-lost", "kind-changed", "initial-value", "args", "fluxes", "rhs")
+GUARD_FINDING = {"shared_ref": "shared-stoichiometry-reference", "boolnum": "boolean-as-number-import"}
+BOOLNUM_WITNESS = {
+    "module": MODULE_HEADER + "def f0(p0, p1):\n    return (p0 > 1) * p1\n",
+    "parameters": [["n200", 3.0]], "variables": [["n100", 2.0]], "derived": [],
+    "reactions": [["n400", "f0", ["n100", "n200"], [["n100", -1]]]], "flags": ["boolnum"], "fns": {},
+}  # fmt: skip
+SHARED_REF_WITNESS = {
+    "module": MODULE_HEADER + "def f0(p0):\n    return p0\n\ndef f1():\n    return 0.5\n\ndef f2():\n    return -1.5\n",
+    "parameters": [["n200", 2.0]], "variables": [["n100", 1.0], ["n101", 1.0]], "derived": [],
+    "reactions": [["n400", "f0", ["n100"], [["n101", {"derived": ["f1", []]}]]], ["n401", "f0", ["n100"], [["n101", {"derived": ["f2", []]}]]]],
+    "flags": ["computed_stoichiometry", "shared_ref"], "fns": {},
+}  # fmt: skip
 
 
 def unsafe_name_fails(name: str, scratch: Path) -> str | None:
@@ -387,6 +448,57 @@ def unsafe_name_fails(name: str, scratch: Path) -> str | None:
     }  # fmt: skip
     _kind, bad = roundtrip_oracle(spec, scratch, "known", [None])
     return bad
+
+
+def _n(x: str) -> tuple:
+    return ("name", x)
+
+
+_LT3 = ("cmp", _n("p0"), [("Lt", ("int", 3))])
+# minimised past failures and one small function per construct the property names; they run first
+MATH_CORPUS: list[tuple[list[str], tuple, list[str]]] = [
+    (["p0"], ("if", _LT3, ("int", 5), ("int", 7)), ["conditional"]),
+    (["p0", "p1"], ("if", ("cmp", ("int", 1), [("Lt", _n("p0")), ("LtE", _n("p1"))]), ("int", 1), ("int", 0)), ["chained"]),
+    (["p0"], ("if", ("cmp", ("int", 1), [("Lt", _n("p0")), ("Lt", ("int", 3))]), _n("p0"), ("un", "USub", _n("p0"))), ["chained"]),
+    (["p0"], ("callattr", "np", "log10", [("bin", "Add", _n("p0"), ("int", 1))], False), ["function"]),
+    (["p0"], ("callattr", "math", "log10", [("bin", "Add", _n("p0"), ("int", 1))], False), ["function"]),
+    (["p0"], ("callattr", "np", "log", [("bin", "Add", _n("p0"), ("int", 1))], False), ["function"]),
+    (["p0"], ("callname", "sqrt", [("bin", "Add", _n("p0"), ("int", 1))], False), ["function"]),
+    (["p0", "p1"], ("callname", "max", [_n("p0"), _n("p1"), ("real", Fraction(3, 2))], False), ["function"]),
+    (["p0", "p1"], ("callattr", "np", "power", [_n("p0"), _n("p1")], False), ["function"]),
+    (["p0", "p1"], ("bin", "Sub", ("bin", "Pow", _n("p0"), ("int", 2)), ("bin", "FloorDiv", _n("p1"), ("int", 2))), []),
+    (["p0", "p1"], ("bin", "Div", ("un", "USub", _n("p0")), ("bin", "Add", _n("p1"), ("real", Fraction(1, 2)))), []),
+    (["p0", "p1"], ("bin", "Mult", ("cmp", _n("p0"), [("Gt", ("int", 1))]), _n("p1")), []),
+    (["p0"], ("if", ("un", "Not", _LT3), ("attr", "math", "pi"), ("attr", "np", "e")), ["conditional"]),
+    (["p0"], ("callattr", "math", "exp", [_n("p0")], False), ["mayrefuse"]),
+    (["p0"], ("callname", "helper", [_n("p0")], False), ["mayrefuse"]),
+    (["p0", "p1"], ("callattr", "np", "sqrt", [_n("p0"), _n("p1")], False), ["mayrefuse"]),
+    (["p0"], ("callattr", "np", "sqrt", [_n("p0")], True), ["mayrefuse"]),
+    (["p0"], ("bin", "Mod", _n("p0"), ("int", 2)), ["mayrefuse"]),
+]
+
+
+def _model(mod: str, **kw) -> dict:  # noqa: ANN003
+    spec = {"module": MODULE_HEADER + mod, "parameters": [["n200", 2.0]], "variables": [["n100", 1.5], ["n101", 0.5]],
+            "derived": [], "reactions": [], "flags": [], "fns": {}}  # fmt: skip
+    spec.update(kw)
+    return spec
+
+
+MODEL_CORPUS: list[dict] = [
+    _model("def f0(p0, p1):\n    return p0 * p1\n\ndef f1(p0):\n    return -(p0 * 1.5)\n\ndef f2():\n    return 2.5\n",
+           reactions=[["n400", "f0", ["n100", "n200"], [["n100", {"derived": ["f1", ["n200"]]}], ["n101", {"derived": ["f2", []]}]]]],
+           flags=["computed_stoichiometry"]),
+    _model("def f0(p0, p1):\n    return p0 * p1\n", reactions=[["n400", "f0", ["n100", "n200"], [["n100", -1.5], ["n101", 0.25]]]],
+           flags=["fractional_stoichiometry"]),
+    _model("def f0(p0):\n    return p0 * 3\n\ndef f1(p0):\n    return p0 + 1\n\ndef f2(p0, p1):\n    return p0 * p1\n",
+           parameters=[["n200", 2.0], ["n201", {"ia": ["f0", ["n200"]]}]], variables=[["n100", {"ia": ["f1", ["n200"]]}], ["n101", 0.5]],
+           reactions=[["n400", "f2", ["n100", "n201"], [["n100", -1], ["n101", 1]]]], flags=["initial_assignment"]),
+    _model("def f0(p0, p1):\n    return (p0 if (1 < p0 <= p1) else (-p1)) + (5 if p0 < 3 else 7)\n",
+           reactions=[["n400", "f0", ["n100", "n200"], [["n100", -1]]]], flags=["chained", "conditional"]),
+    _model("def f0(p0):\n    return np.log10(p0 + 1) + math.sqrt(p0)\n\ndef f1(p0, p1):\n    return p0 * p1\n",
+           derived=[["n300", "f0", ["n100"]]], reactions=[["n400", "f1", ["n300", "n200"], [["n101", -2]]]], flags=["function"]),
+]
 
 
 def check(run: Run) -> None:
@@ -432,6 +544,7 @@ def check(run: Run) -> None:
 
 def _run(run: Run, rng, scratch: Path, thorough: bool) -> None:  # noqa: ANN001
     n_viol = 0
+    known_ids = {kf.get("id") for kf in common.load_known_findings("C08")}
     dist: dict[str, int] = {}
 
     def bump(k: str) -> None:
@@ -440,7 +553,9 @@ def _run(run: Run, rng, scratch: Path, thorough: bool) -> None:  # noqa: ANN001
     # ---- (A) function level -----------------------------------------------------------
     n_fn = 4000 if thorough else 700
     fdefs = []
-    for i in range(n_fn):
+    for params, e, fl in MATH_CORPUS:
+        fdefs.append({"params": params, "body": [("return", e)], "flags": fl, "name": f"f{len(fdefs)}", "args": [f"n{100 + j}" for j in range(len(params))]})
+    for i in range(len(fdefs), n_fn):
         wild = rng.random() < 0.35
         fd = gen_function(rng, rng.randint(0, 3) if rng.random() < 0.9 else 4, rng.randint(1, 4), wild)
         fd["name"] = f"f{i}"
@@ -500,7 +615,7 @@ def _run(run: Run, rng, scratch: Path, thorough: bool) -> None:  # noqa: ANN001
     # ---- (C) one-reaction / one-assignment documents ---------------------------------------
     rxn_cases, rxn_meta, ia_cases, ia_meta = [], [], [], []
     for i in range(400 if thorough else 80):
-        spec = gen_model(rng, wild=rng.random() < 0.25)
+        spec = gen_model(rng, wild=rng.random() < 0.25, exotic=True)
         # keep numeric parameters/variables, one reaction, no derived; initial assignments separately
         ia_specs = [(nm, v["ia"]) for nm, v in spec["parameters"] + spec["variables"] if isinstance(v, dict)]
         mini = dict(spec)
@@ -515,6 +630,9 @@ def _run(run: Run, rng, scratch: Path, thorough: bool) -> None:  # noqa: ANN001
             out = doc_reaction_outcome(mini, scratch, f"r{i}")
         except Exception as e:  # noqa: BLE001
             run.note(f"one-reaction document {i} could not be produced: {type(e).__name__}: {e}")
+            continue
+        if out[0] == "skip":
+            bump("rxn-doc:skipped-" + out[1].replace(" ", "-"))
             continue
         fns = spec["fns"]
         r_coq = f"(mkRxn {coq_fundef(fns[rx[1]][0], fns[rx[1]][1])} {clist(cn(int(a[1:])) for a in rx[2])} {clist('(' + cn(int(v[1:])) + ', ' + coq_coef(c, fns) + ')' for v, c in rx[3])})"
@@ -533,10 +651,14 @@ def _run(run: Run, rng, scratch: Path, thorough: bool) -> None:  # noqa: ANN001
             one["variables"] = [v for v in mini["variables"] if v[0] != nm]
             target = "parameters" if nm.startswith("n2") else "variables"
             one[target] = [*one[target], [nm, {"ia": [f, a]}]]
+            one["reactions"] = []  # an exception must come from the assignment, not from the reaction's rate law
             try:
                 o2 = doc_reaction_outcome(one, scratch, f"i{i}")
             except Exception as e:  # noqa: BLE001
                 run.note(f"one-assignment document {i} could not be produced: {type(e).__name__}: {e}")
+                continue
+            if o2[0] == "skip":
+                bump("ia-doc:skipped-" + o2[1].replace(" ", "-"))
                 continue
             if o2[0] == "ok":
                 tree = o2[2].get(nm)
@@ -551,11 +673,19 @@ def _run(run: Run, rng, scratch: Path, thorough: bool) -> None:  # noqa: ANN001
     # ---- (D) whole-model round trip (oracle) ----------------------------------------------
     n_models = 500 if thorough else 70
     for i in range(n_models):
-        spec = gen_model(rng, wild=rng.random() < 0.15)
+        r = rng.random()
+        spec = MODEL_CORPUS[i] if i < len(MODEL_CORPUS) else gen_model(rng, wild=r < 0.12, exotic=0.12 <= r < 0.3)
         states: list[dict[str, float] | None] = [None]
         for _ in range(2):
             states.append({v[0]: float(rng.randint(0, 4)) for v in spec["variables"]})
         kind, bad = roundtrip_oracle(spec, scratch, f"m{i}", states)
+        if bad and kind in IMPORT_SIDE:
+            # recorded findings (known_findings.d/C08.json), by guard: the importer cannot read truth values used as
+            # numbers; computed coefficients of one species in several reactions share one reference id
+            guard = "shared_ref" if "shared_ref" in spec["flags"] else "boolnum" if "boolnum" in spec["flags"] else None
+            if guard is not None and GUARD_FINDING[guard] in known_ids:
+                bump(f"model:known-finding-{GUARD_FINDING[guard]}")
+                kind, bad = "known-finding", None
         bump("model:" + kind)
         for fl in spec["flags"]:
             bump("modelflag:" + fl)
@@ -609,6 +739,11 @@ def _run(run: Run, rng, scratch: Path, thorough: bool) -> None:  # noqa: ANN001
             bad = unsafe_name_fails(w, scratch)
             if bad:
                 run.known(kf["id"], f"variable named {w!r}: {bad}")
+        for fid, wspec in (("boolean-as-number-import", BOOLNUM_WITNESS), ("shared-stoichiometry-reference", SHARED_REF_WITNESS)):
+            if kf.get("id") == fid:
+                _kind, bad = roundtrip_oracle(wspec, scratch, "known-" + fid[:6], [None, {v[0]: 3.0 for v in wspec["variables"]}])
+                if bad:
+                    run.known(fid, bad)
 
 
 def replay(rep: dict) -> int:
